@@ -1,0 +1,100 @@
+//go:build verif
+// +build verif
+
+// Entry points for the external verification harness (/verif, checks C06 and
+// C12).  Add-only, compiled only with build tag `verif`; no existing function
+// is changed.
+//
+// They let the REAL block builder - worker.commitNewWork with makeCurrent,
+// commitTransactions / commitTransaction, processor.EndBlock(isSeal=true) and
+// commit, then optionally worker.mine (engine.Seal + postSeal) - assemble
+// exactly one block on a given chain from the pending transactions of a given
+// pool, synchronously.  The worker is wired field by field the way newWorker
+// wires it; the only differences are the ones that make the call synchronous:
+//   - the four background goroutines (update, newWorkLoop, mainLoop, taskLoop)
+//     and the three event subscriptions are not started: the harness calls
+//     commitNewWork itself, the way mainLoop does for a newWorkReq;
+//   - taskCh has room for one task, so that commit() can hand the task over
+//     without a running taskLoop;
+//   - running is set the way start() sets it (without the startCh signal).
+
+package miner
+
+import (
+	"errors"
+	"sync/atomic"
+
+	"github.com/youchainhq/go-youchain/consensus"
+	"github.com/youchainhq/go-youchain/core"
+	"github.com/youchainhq/go-youchain/core/state"
+	"github.com/youchainhq/go-youchain/core/types"
+	"github.com/youchainhq/go-youchain/event"
+)
+
+type verifBackend struct {
+	bc   *core.BlockChain
+	pool *core.TxPool
+}
+
+func (b *verifBackend) BlockChain() *core.BlockChain { return b.bc }
+func (b *verifBackend) TxPool() *core.TxPool         { return b.pool }
+
+// ErrVerifNoTask: commitNewWork returned without handing a task to the sealer
+// (it only logs the reason: Prepare refused, no mining context, interrupted, commit failed).
+var ErrVerifNoTask = errors.New("worker.commitNewWork returned without producing a block")
+
+func verifNewWorker(bc *core.BlockChain, engine consensus.Engine, mux *event.TypeMux, pool *core.TxPool) *worker {
+	you := &verifBackend{bc: bc, pool: pool}
+	w := &worker{
+		engine:      engine,
+		you:         you,
+		eventMux:    mux,
+		chain:       you.BlockChain(),
+		txsCh:       make(chan core.NewTxsEvent, txChanSize),
+		chainHeadCh: make(chan core.ChainHeadEvent, chainHeadChanSize),
+		newWorkCh:   make(chan newWorkReq),
+		taskCh:      make(chan *task, 1),
+		startCh:     make(chan struct{}, 1),
+		exitCh:      make(chan struct{}),
+		nodeConfig:  nil,
+		processor:   you.BlockChain().Processor(),
+	}
+	atomic.StoreInt32(&w.running, 1)
+	return w
+}
+
+func verifBuild(w *worker) (*task, error) {
+	w.commitNewWork(nil)
+	select {
+	case t := <-w.taskCh:
+		return t, nil
+	default:
+		return nil, ErrVerifNoTask
+	}
+}
+
+// VerifBuildBlock lets the real worker assemble the next block of bc from the
+// pending transactions of pool and returns the task it would hand to the
+// sealer: the block, the receipts and the post-state.  Nothing is written to
+// the chain.
+func VerifBuildBlock(bc *core.BlockChain, engine consensus.Engine, mux *event.TypeMux, pool *core.TxPool) (*types.Block, []*types.Receipt, *state.StateDB, error) {
+	t, err := verifBuild(verifNewWorker(bc, engine, mux, pool))
+	if err != nil {
+		return nil, nil, nil, err
+	}
+	return t.block, t.receipts, t.state, nil
+}
+
+// VerifBuildAndSealBlock is VerifBuildBlock followed by what taskLoop does with
+// the task: worker.mine, i.e. engine.Seal and postSeal (the builder stores its
+// own block with WriteBlockWithState and posts the chain events).  It returns
+// the block as assembled; whether it became the head is for the caller to see.
+func VerifBuildAndSealBlock(bc *core.BlockChain, engine consensus.Engine, mux *event.TypeMux, pool *core.TxPool) (*types.Block, []*types.Receipt, *state.StateDB, error) {
+	w := verifNewWorker(bc, engine, mux, pool)
+	t, err := verifBuild(w)
+	if err != nil {
+		return nil, nil, nil, err
+	}
+	w.mine(t, make(chan struct{}))
+	return t.block, t.receipts, t.state, nil
+}
